@@ -168,6 +168,16 @@ def run(ctx) -> None:
             ok = bool(hs) and any(isinstance(b, ast.Raise) and b.exc is None for b in hs[0].body)
             rep.check("C13.R2", ok, aenter, rn.ast, "entry failure rolls the state back to inactive and re-raises", "the state is reset to inactive outside a re-raising handler")
             if hs:
+                from ..cfg import handler_names as _hn
+
+                catch_all = hs[0].type is None or "BaseException" in _hn(hs[0].type)
+                # ... for every way the entry can fail: every checkpoint / may-raise node between
+                # `state = open` and the end of the entry is covered by that handler
+                rep.check("C13.R2", catch_all, aenter, hs[0], "the rollback handler catches BaseException: cancellation while entering (the task group / exit stack is entered with awaits) is rolled back too", f"the rollback handler catches only `{ast.unparse(hs[0].type) if hs[0].type is not None else ''}`: an entry cancelled at one of its checkpoints leaves the context 'open' although it was never entered - it can neither be used nor entered again")
+                after_open = ecfg.reach([opens[0].id], edge_ok=lambda s_, d_, lab: lab not in ("e", "h"))
+                uncovered = [ecfg.nodes[i] for i in sorted(after_open) if i != opens[0].id and ecfg.nodes[i].kind in ("stmt", "with_enter", "for_iter", "test") and a.node_may_raise(aenter, ecfg, ecfg.nodes[i]) and isinstance(ecfg.own_ast(ecfg.nodes[i]) or ecfg.nodes[i].ast, ast.AST) and hs[0] not in a.covering_handlers(aenter, ecfg.own_ast(ecfg.nodes[i]) or ecfg.nodes[i].ast)]
+                uncovered = [n for n in uncovered if not (n.kind == "stmt" and isinstance(n.ast, ast.Raise) and n.ast.exc is None)]
+                rep.check("C13.R2", not uncovered, aenter, uncovered[0].ast if uncovered and isinstance(uncovered[0].ast, ast.AST) else hs[0], "everything that can fail after the state became open is inside the rollback try", "a statement that may raise after `state = open` is outside the rollback handler: its failure leaves the context 'open'")
                 cover = a.covering_handlers(aenter, eg[0][1])
                 rep.check("C13.R2", hs[0] not in cover, aenter, eg[0][1], "the entry guard is outside the rollback handler: a rejected re-entry changes nothing", "the entry guard sits inside the rollback try: a rejected re-entry (RuntimeError) resets an open/closing/closed context to inactive")
         others = [m for m in e_assigns if m not in ("open", "inactive")]
